@@ -61,6 +61,24 @@ def check(P, rep):
         others = [e for e in state_effects(g) if e.kind not in ('invoke',)]
         rep.check(not others, 'C17.R2', 'execute:no-other-effects', 'execute has no effect besides the forward', entry_id(g),
                   '; '.join(x.describe() for x in others)[:300])
+    # who-may-forward: the operators contract calls out only from `execute` (a private helper exported as an entry point, a second
+    # forwarding entry without the operator checks, ... would let anyone act with the contract's identity)
+    for cn, en in P.all_entries():
+        if cn != CN or en == 'execute':
+            continue
+        g = P.graph(cn, en)
+        for e in state_effects(g):
+            if e.kind in ('invoke', 'xcall', 'deploy', 'sdk') and not within_entry(g, e, ['execute']):
+                # another forwarding entry (a batch variant) is fine when EACH call it makes is behind the authorisation of some address
+                # and that same address's membership in the operator set
+                ok = False
+                for who in set(core(a.subject) for a in auths(g)):
+                    an = auth_nodes(g, lambda s_, who=who: core(s_) == who)
+                    member = guard_sel(g, lambda c_, who=who: opkey(c_, 'present', who))
+                    if an and member and mg(g, [e.node], an)[0] and mg(g, [e.node], (), edges(member))[0]:
+                        ok = True
+                rep.check(ok, 'C17.R1', '%s:forward-outside-execute' % en, 'every call the operators contract makes to another contract is behind '
+                          'require_auth(A) and Operators(A) present for one address A', esite(g, e), e.describe()[:200])
     storage_classes(P, rep, 'C17.R3', CN, {'Operators': 'instance', 'Interfaces_Owner': 'instance'})
     # R3 who-may-write Operators(_)
     nw = 0
